@@ -172,7 +172,7 @@ fn corrupt(rng: &mut Rng, line: &str) -> (String, &'static str) {
 pub fn run(ctx: &mut Ctx) {
     let env = Env::new(ctx);
     let bundled = env.load_bundled();
-    let n = ctx.n(64, 5000);
+    let n = ctx.n(200, 5000);
     ctx.run_cases("forms", n, false, |ctx, rng, idx| {
         if idx % 3 == 0 {
             forms(ctx, &env, rng, &bundled, "bundled");
@@ -227,7 +227,7 @@ pub fn run(ctx: &mut Ctx) {
     let mut small = VoiceOpts::tiny();
     small.fperiod = 8;
     let (tiny, _) = load_synthetic(&env, &small, &mut r0).expect("tiny voice");
-    let n = ctx.n(3000, 300000);
+    let n = ctx.n(10000, 300000);
     ctx.run_cases("corruptions", n, false, |ctx, rng, idx| {
         let base = rng.pick(&env.corpus.lines).clone();
         let (bad, kind) = corrupt(rng, &base);
